@@ -20,7 +20,6 @@ PROPS_FILE = "C03.v"
 RUN_MODULE = "RunC03"
 TRANSLATOR_UNITS = ["xfrm"]
 SHARD = 42
-F7 = "F7-async-reset-runs-sync-process"
 WIDE = "C03-wide-enable-control-over-memory-read-port"
 RULE = ("designs: 1-3 clock domains (pos/neg edge; sync / async / no reset) defined in the top module, hierarchy depth <= 2, "
         "statements built with the Module DSL (If/Else, Switch/Case/Default, assignments to whole signals, slices, part-selects, "
@@ -52,7 +51,8 @@ MODELLED = ("_xfrm.py LHSMaskCollector / _ControlInserter / ResetInserter / Enab
             "elaboration is validated only")
 ASSUMPTIONS = ["clocks, resets and inserter controls are testbench-written signals not driven by the design",
                "single driver per bit (as enforced for legal designs); no combinational loops",
-               "spec stream: F7 (async reset rise runs the whole sync process) is a known finding"]
+               "spec stream s: the spec engine (reset rise of an async domain only loads initial values) and the faithful "
+               "engine coincide since the simulator repair 574e1db; both are compared with the code"]
 
 
 # ------------------------------------------------------------------ generation of designs
@@ -1096,48 +1096,15 @@ def first_divergence(c, obs, model):
 
 
 def known_finding(c, obs, model):
-    """F7: spec-vs-code divergence whose first differing step is a reset rise of an async-reset domain without an
-    active edge of that domain's clock, in bits of a reset-less signal driven from that domain."""
+    """Only the wide-enable-control finding has a filter (and only for its own case kind `a`).  The former F7 filter is
+    gone: the simulator was repaired, the s stream (faithful trace ++ spec trace) must now agree exactly."""
     if c["k"] == "a":
         # the faithful model reproduces the AssertionError exactly; the spec (no exception) answer follows it
         model = list(model)
         if list(obs[:2]) == [-1, 1] and model[:2] == [-1, 1] and len(model) > 2 and model[2] == 1:
             return WIDE
         return None
-    if c["k"] != "s" or len(obs) != len(model) or obs[0] != 1:
-        return None
-    model = list(model)
-    half = (len(obs) - 1) // 2
-    if model[:1 + half] != list(obs[:1 + half]):
-        return None          # the FAITHFUL model must reproduce the observation exactly
-    obs, model = list(obs[1 + half:]), model[1 + half:]
-    fd = first_divergence(c, obs, list(model))
-    if fd is None:
-        return None
-    step, sig, diff = fd
-    if step == 0 or not c["sigs"][sig][3]:
-        return None
-    cur = {i: c["sigs"][i][2] for i in c["tb"]}
-    for ev in c["ev"][:step - 1]:
-        for i, v in ev:
-            cur[i] = v
-    ev = dict((i, v) for i, v in c["ev"][step - 1])
-    w = c["sigs"][sig][0]
-    for lo, hi, d in c["own"][str(sig)]:
-        seg = ((1 << hi) - (1 << lo)) | (-1 << w if hi == w else 0)
-        if not diff & seg:
-            continue
-        if d < 1 or d > len(c["doms"]):
-            return None
-        dm = c["doms"][d - 1]
-        if dm["rst"] != 2:
-            return None
-        rose = dm["rsti"] in ev and cur[dm["rsti"]] == 0 and ev[dm["rsti"]] == 1
-        pol = 1 if dm["pos"] else 0
-        edge = dm["clk"] in ev and cur[dm["clk"]] != ev[dm["clk"]] and ev[dm["clk"]] == pol
-        if not rose or edge:
-            return None
-    return F7
+    return None
 
 
 def shrink(c, obs, model):
